@@ -852,6 +852,31 @@ func azE2E(c *suiteCtx) {
 			azRequest(c, e, "after-refused-login", ru0, set0, "/app", b.cookieHeader(), "", "", nil, false)
 			azAuthOnly(c, e, "after-refused-login", ru0, set0, nil, b.cookieHeader(), "", nil, false)
 		}
+		// ---- an identity WITHOUT an e-mail that the provider itself does not refuse (providers built on the ProviderData
+		// defaults): no e-mail rule can admit it, so it must get no session and never be served with identity
+		if i%6 == 2 && !azHasStar(ru0.domains) {
+			e.instrument()
+			nb := newBrowser()
+			_, loc := e.startLogin(nb, "/")
+			if cb, _, err := e.idp.authorize(loc, idpUser{Sub: "no-email-" + is(i), Groups: gi}); err == nil {
+				if cu, perr := url.Parse(cb); perr == nil {
+					e.proxy.provider.(*recProvider).forceEnrichOK = true
+					cr := e.do(reqSpec{Target: cu.RequestURI(), Cookie: nb.cookieHeader()})
+					e.proxy.provider.(*recProvider).forceEnrichOK = false
+					if cr.raw != nil {
+						nb.apply(cr.raw)
+					}
+					c.count("login:no-email-identity")
+					r2 := e.do(reqSpec{Target: "/app/after", Cookie: nb.cookieHeader()})
+					asUser := len(r2.Hits) > 0 && r2.Hits[0].Header.Get("X-Forwarded-User") != ""
+					c.casen("c08:noemail:"+is(i), fmt.Sprint(cr.Status))
+					if sessionSet(e, cr) || asUser {
+						c.violation("C08", "an identity without an e-mail address obtained a session although e-mail rules are configured that cannot admit it",
+							map[string]interface{}{"callback_status": cr.Status, "served_as_user": asUser, "rules": fmt.Sprintf("%+v", ru0)})
+					}
+				}
+			}
+		}
 		// ---- htpasswd users carry no e-mail: exempt from the e-mail rules, subject to the group rule
 		if htpasswd {
 			hg := []string{"hg1", "hg2"}
@@ -931,4 +956,13 @@ func azE2E(c *suiteCtx) {
 		close(w.done)
 		e.close()
 	}
+}
+
+func azHasStar(ds []string) bool {
+	for _, d := range ds {
+		if d == "*" {
+			return true
+		}
+	}
+	return false
 }
